@@ -255,8 +255,11 @@ def gen(rng, focus="general"):
         o["radius_init"] = r(10 ** rng.uniform(-2, 1))
     if rng.random() < 0.2:
         o["radius_final"] = r(min(o.get("radius_init", 1.0), 10 ** rng.uniform(-8, -2)))
-    if rng.random() < 0.1:
+    u = rng.random()
+    if u < 0.1:
         o["feasibility_tol"] = r(10 ** rng.uniform(-10, -2))
+    elif u < (0.3 if focus in ("C03", "C07", "C09", "target") else 0.16):
+        o["feasibility_tol"] = 0.0      # boundary: a violation EQUAL to the tolerance is feasible everywhere or nowhere
     if rng.random() < (0.3 if focus == "C06" else 0.12):
         o["disp"] = True
     desc["options"] = o
